@@ -71,6 +71,7 @@ extern String	comsgString	  (Msg);		/* Shared. */
 extern void	comsgInit	  (void);
 extern void	comsgFini	  (void);
 extern int	comsgErrorCount	  (void);
+extern int	comsgErrorTotal	  (void);
 			/*
 			 * comsgInit initializes the list.
 			 * comsgFini finalizes message structures
